@@ -29,6 +29,13 @@ func ValueOf(query *Query, current Map, any any) (any, error) {
 				// }
 				return nil, err
 			}
+			// a reference to a common table expression is a reference to its rows
+			if cte, ok := rs.(CteEvaluation); ok {
+				return cte()
+			}
+			if document, ok := rs.(Map); ok {
+				return PlainDocument(document), nil
+			}
 			return rs, nil
 		}
 	case NeutalString:
@@ -47,6 +54,30 @@ func ValueOf(query *Query, current Map, any any) (any, error) {
 			return value, nil
 		}
 	}
+}
+
+// A document that is handed out as a value is plain data: the backward
+// navigation marker and the common table expressions the engine keeps in the
+// enclosing document stay behind. A document that holds neither is returned as it is
+func PlainDocument(document Map) Map {
+	plain := true
+	for key, value := range document {
+		if _, ok := value.(CteEvaluation); ok || key == "<-" {
+			plain = false
+			break
+		}
+	}
+	if plain {
+		return document
+	}
+	copy := make(Map, len(document))
+	for key, value := range document {
+		if _, ok := value.(CteEvaluation); ok || key == "<-" {
+			continue
+		}
+		copy[key] = value
+	}
+	return copy
 }
 
 func AsType[T any](value any) (*T, error) {
